@@ -58,6 +58,9 @@ Model/MonC14.vos Model/MonC14.vok Model/MonC14.required_vos: Model/MonC14.v Mode
 Model/MonC10.vo Model/MonC10.glob Model/MonC10.v.beautified Model/MonC10.required_vo: Model/MonC10.v Model/Mon.vo
 Model/MonC10.vio: Model/MonC10.v Model/Mon.vio
 Model/MonC10.vos Model/MonC10.vok Model/MonC10.required_vos: Model/MonC10.v Model/Mon.vos
+Model/MonC06.vo Model/MonC06.glob Model/MonC06.v.beautified Model/MonC06.required_vo: Model/MonC06.v Model/Mon.vo
+Model/MonC06.vio: Model/MonC06.v Model/Mon.vio
+Model/MonC06.vos Model/MonC06.vok Model/MonC06.required_vos: Model/MonC06.v Model/Mon.vos
 Proofs/Framework.vo Proofs/Framework.glob Proofs/Framework.v.beautified Proofs/Framework.required_vo: Proofs/Framework.v Model/Mon.vo
 Proofs/Framework.vio: Proofs/Framework.v Model/Mon.vio
 Proofs/Framework.vos Proofs/Framework.vok Proofs/Framework.required_vos: Proofs/Framework.v Model/Mon.vos
@@ -109,6 +112,9 @@ Proofs/PC14.vos Proofs/PC14.vok Proofs/PC14.required_vos: Proofs/PC14.v Model/Mo
 Proofs/PC10.vo Proofs/PC10.glob Proofs/PC10.v.beautified Proofs/PC10.required_vo: Proofs/PC10.v Model/Mon.vo Model/MonC10.vo Proofs/Eqb.vo
 Proofs/PC10.vio: Proofs/PC10.v Model/Mon.vio Model/MonC10.vio Proofs/Eqb.vio
 Proofs/PC10.vos Proofs/PC10.vok Proofs/PC10.required_vos: Proofs/PC10.v Model/Mon.vos Model/MonC10.vos Proofs/Eqb.vos
+Proofs/PC06.vo Proofs/PC06.glob Proofs/PC06.v.beautified Proofs/PC06.required_vo: Proofs/PC06.v Model/Mon.vo Model/MonC06.vo Model/MonC01.vo Model/MonC05.vo Model/MonC08.vo Proofs/Framework.vo Proofs/StoreLocks.vo Proofs/StorePromises.vo Proofs/StoreCallbacks.vo Proofs/Discipline.vo Proofs/SysInv.vo Proofs/Eqb.vo Proofs/PC16.vo Proofs/PC05.vo Proofs/PC01.vo Proofs/PC08.vo
+Proofs/PC06.vio: Proofs/PC06.v Model/Mon.vio Model/MonC06.vio Model/MonC01.vio Model/MonC05.vio Model/MonC08.vio Proofs/Framework.vio Proofs/StoreLocks.vio Proofs/StorePromises.vio Proofs/StoreCallbacks.vio Proofs/Discipline.vio Proofs/SysInv.vio Proofs/Eqb.vio Proofs/PC16.vio Proofs/PC05.vio Proofs/PC01.vio Proofs/PC08.vio
+Proofs/PC06.vos Proofs/PC06.vok Proofs/PC06.required_vos: Proofs/PC06.v Model/Mon.vos Model/MonC06.vos Model/MonC01.vos Model/MonC05.vos Model/MonC08.vos Proofs/Framework.vos Proofs/StoreLocks.vos Proofs/StorePromises.vos Proofs/StoreCallbacks.vos Proofs/Discipline.vos Proofs/SysInv.vos Proofs/Eqb.vos Proofs/PC16.vos Proofs/PC05.vos Proofs/PC01.vos Proofs/PC08.vos
 Props/C09.vo Props/C09.glob Props/C09.v.beautified Props/C09.required_vo: Props/C09.v Model/Mon.vo Model/MonC09.vo Proofs/StoreLocks.vo Proofs/Discipline.vo Proofs/SysInv.vo Proofs/PC09.vo
 Props/C09.vio: Props/C09.v Model/Mon.vio Model/MonC09.vio Proofs/StoreLocks.vio Proofs/Discipline.vio Proofs/SysInv.vio Proofs/PC09.vio
 Props/C09.vos Props/C09.vok Props/C09.required_vos: Props/C09.v Model/Mon.vos Model/MonC09.vos Proofs/StoreLocks.vos Proofs/Discipline.vos Proofs/SysInv.vos Proofs/PC09.vos
@@ -139,6 +145,9 @@ Props/C14.vos Props/C14.vok Props/C14.required_vos: Props/C14.v Model/Mon.vos Mo
 Props/C10.vo Props/C10.glob Props/C10.v.beautified Props/C10.required_vo: Props/C10.v Model/Mon.vo Model/MonC10.vo Proofs/PC10.vo
 Props/C10.vio: Props/C10.v Model/Mon.vio Model/MonC10.vio Proofs/PC10.vio
 Props/C10.vos Props/C10.vok Props/C10.required_vos: Props/C10.v Model/Mon.vos Model/MonC10.vos Proofs/PC10.vos
+Props/C06.vo Props/C06.glob Props/C06.v.beautified Props/C06.required_vo: Props/C06.v Model/Mon.vo Model/MonC06.vo Model/MonC01.vo Model/MonC05.vo Model/MonC08.vo Proofs/SysInv.vo Proofs/PC06.vo Proofs/PC01.vo Proofs/PC05.vo Proofs/PC08.vo Gen/Sql.vo
+Props/C06.vio: Props/C06.v Model/Mon.vio Model/MonC06.vio Model/MonC01.vio Model/MonC05.vio Model/MonC08.vio Proofs/SysInv.vio Proofs/PC06.vio Proofs/PC01.vio Proofs/PC05.vio Proofs/PC08.vio Gen/Sql.vio
+Props/C06.vos Props/C06.vok Props/C06.required_vos: Props/C06.v Model/Mon.vos Model/MonC06.vos Model/MonC01.vos Model/MonC05.vos Model/MonC08.vos Proofs/SysInv.vos Proofs/PC06.vos Proofs/PC01.vos Proofs/PC05.vos Proofs/PC08.vos Gen/Sql.vos
 Props/C15.vo Props/C15.glob Props/C15.v.beautified Props/C15.required_vo: Props/C15.v Gen/Status.vo Spec/Front15.vo Model/Coro.vo
 Props/C15.vio: Props/C15.v Gen/Status.vio Spec/Front15.vio Model/Coro.vio
 Props/C15.vos Props/C15.vok Props/C15.required_vos: Props/C15.v Gen/Status.vos Spec/Front15.vos Model/Coro.vos
